@@ -76,6 +76,16 @@ CHECKS = {
              "uninterpreted. Unmodelled: scanner state after an ignored error (unreachable for accepted documents). No axioms.",
         technique="Coq proof (mutual induction over the document's entry tree) + refutation theorems + differential correspondence with independent span oracle",
         design="2/C05"),
+    "C07": dict(
+        text="Machine-checked Coq theorems over an executable Gallina mirror of every Serializer::data, Frame::parse and "
+             "Bitfield::{from_vec,to_vec}: layout equals the independently written BEP3 relation, parse(encode m ++ rest) "
+             "= (m, |encode m|) for all field values in range, bit i <-> bit (7 - i mod 8) of byte i/8 in both directions, "
+             "for all sizes. Constants are regenerated from the source each run; the hand-written model is tied to the "
+             "code by differential execution with the spec oracle applied to the implementation's output.",
+        note="Trusted: Coq kernel; gen_consts.py; the correspondence (generators, harness, in-Coq comparison); the model is "
+             "hand-written (modelled, not verified Rust). No axioms.",
+        technique="Coq proof (induction, finite sweeps by vm_compute) + differential correspondence model vs code",
+        design="2/C07"),
     "C06": dict(
         text="Coq theorems over executable mirrors of Frame::parse (Wire.v) and Connection::parse_frame / recv_frame (Conn.v): no "
              "buffer makes the decoder panic (C06_total); whenever it waits fewer than 4 + 65536 bytes are buffered (C06_bounded); "
